@@ -104,6 +104,10 @@ def tlc(d, module, cfg_text, workers=4, timeout=900, env=None, heap="4g", extra=
     e = {"JAVA_TOOL_OPTIONS": "-Xss1g -Xmx%s" % heap}
     if env:
         e.update(env)
+    # TLC leaves an (empty) directory per run in java.io.tmpdir: keep them out of /tmp
+    jtmp = os.path.join(WORK, "jtmp")
+    os.makedirs(jtmp, exist_ok=True)
+    e["JAVA_TOOL_OPTIONS"] = e.get("JAVA_TOOL_OPTIONS", "") + " -Djava.io.tmpdir=" + jtmp
     cmd = ["timeout", str(timeout), "tlc", "-workers", str(workers), "-metadir", os.path.join(d, "md"),
            "-cleanup", "-noGenerateSpecTE", "-config", cfg, *extra, os.path.join(d, module + ".tla")]
     rc, out = sh(cmd, cwd=d, env=e, timeout=timeout + 60)
